@@ -43,6 +43,10 @@ def snippets(g):
     a, b = f(), f()
     out.append(("range-pointer-to-array-no-yield", [{"s": "raw", "y": False, "text": [
         "for _, v%d := range &[3]int{1, 2, 3} {" % a, "\ttr.U(%d, v%d)" % (b, a), "}"]}, {"s": "yield", "id": f()}], "roe"))
+    a, b, c, d = f(), f(), f(), f()
+    out.append(("range-pointer-to-array-no-yield-with-taken-branches", [{"s": "raw", "y": False, "text": [
+        "for i%d := range &[4]int{1, 2, 3, 4} {" % a, "\tif i%d == 1 {" % a, "\t\tcontinue", "\t}", "\tif i%d == 3 {" % a, "\t\tbreak", "\t}",
+        "\ttr.U(%d, i%d)" % (b, a), "}"]}, {"s": "atom", "id": c}, {"s": "yield", "id": d}], "roe"))
     a, b, c = f(), f(), f()
     out.append(("defer-in-yield-free-block", [{"s": "raw", "y": False, "text": ["{", "\tdefer tr.E(%d)" % a, "\ttr.E(%d)" % b, "}"]}, {"s": "yield", "id": c}], "roe"))
     a, b, c, d, e = f(), f(), f(), f(), f()
